@@ -536,10 +536,14 @@ func (fr *Frame) markEscaped(v Val) {
 		}
 		delete(f.ownBoxes, v.T.S)
 		if ci, ok := fr.R.closures[v.T.S]; ok {
-			for _, b := range ci.bindings {
-				if b.T.S != "" {
-					delete(f.ownBoxes, b.T.S)
+			for i, b := range ci.bindings {
+				if b.T.S == "" {
+					continue
 				}
+				if i < len(ci.fn.FreeVars) && !closureWrites(ci.fn, ci.fn.FreeVars[i]) {
+					continue // the closure only reads the variable: nobody else can change it
+				}
+				delete(f.ownBoxes, b.T.S)
 			}
 		}
 	}
@@ -583,6 +587,17 @@ func (fr *Frame) havocAllHeap() {
 			}
 		}
 		r.Trusted["while "+r.monitor.Name+" is held, code reached through calls (closer.Close, callbacks) does not modify the protected state (it cannot take the non-reentrant lock)"] = true
+	}
+	if !fr.noKeep && len(fr.st.locks) > 0 {
+		if keep == nil {
+			keep = map[string]Term{}
+		}
+		for _, comp := range fr.heldLockComps() {
+			if sort, ok := r.Heap.sorts[comp]; ok {
+				keep[comp] = r.Heap.Get(fr.st, comp, sort)
+			}
+		}
+		r.Trusted["while a monitored mutex is held, library code and contracted callees do not modify the state it protects (they cannot take the non-reentrant lock)"] = true
 	}
 	r.Heap.HavocAll(fr.st)
 	for k, v := range keep {
